@@ -62,6 +62,11 @@ CLAIMED["C10"] = ("exploration",
    "Requests and replies are kept below the 32 KiB frame; only open descriptors are listed. The two endpoints log from independent goroutines, so only per-direction projections are compared. Scheduling inside the two-event selects is left to the OS (cancel-after delays sweep it).",
    "stateful / model-based property testing (rapid), protocol-automaton check over instrumented message logs", "§3 C10")
 
+CLAIMED["C14"] = ("exploration",
+   "Generated Open batches (0..12 items over a 10-name pool with duplicates and sub-directory paths, every access mode x CREAT/EXCL/TRUNC/APPEND/MkdirAll) are issued against a container in whose writable mounts one of {nothing, regular file, mode-000 file, symlink to a file / into another mount / dangling / to a FIFO, FIFO, directory, socket, unstatable path (below a file, below a symlink loop, over-long name)} was planted at each path; Symlink batches and Deletes likewise. The sequential per-item expectation from the lstat state is compared index by index: a descriptor must have the path's (dev, ino), be regular, have the requested access mode and close-on-exec; everything else must be an error at exactly that index; planted objects and symlink targets are untouched; the call returns within 5 s; Ping works afterwards and the host's descriptor count returns to baseline.",
+   "Objects are planted from the host through /proc/<init>/root (the same objects a program could create). For a mode-000 regular file and for CREAT|EXCL on an existing file either outcome is accepted, but a returned descriptor must still be the right file.",
+   "property-based testing (rapid) with a sequential per-item model", "§3 C14")
+
 NOT_YET = {}
 
 def main():
